@@ -329,6 +329,31 @@ class Run:
                 return ("R3-own-grid", "time points differ", "timepoints")
             if not np.allclose(gr.dt, gl.dt, rtol=0, atol=1e-12):
                 return ("R3-own-grid", "step lengths differ", "dt")
+        # R3 also for portfolios wrapped by structured / linked assets ("a portfolio's own time grid survives")
+        def nested(o, acc, seen):
+            if id(o) in seen:
+                return acc
+            seen.add(id(o))
+            if hasattr(o, "assets") and isinstance(getattr(o, "assets"), list):
+                acc.append(o)
+                for a_ in o.assets:
+                    nested(a_, acc, seen)
+            else:
+                for k_ in ("portfolio", "base_asset"):
+                    if hasattr(o, k_):
+                        nested(getattr(o, k_), acc, seen)
+            return acc
+        pr_, pl_ = nested(ref, [], set()), nested(loaded, [], set())
+        if len(pr_) == len(pl_):
+            for a_, b_ in list(zip(pr_, pl_))[1 if hasattr(ref, "assets") else 0:]:
+                if hasattr(a_, "timegrid") != hasattr(b_, "timegrid"):
+                    return ("R3-own-grid", "a wrapped portfolio's own time grid is present on one side only (saved: %s, loaded: %s)"
+                            % (hasattr(a_, "timegrid"), hasattr(b_, "timegrid")), "nested-presence")
+                if hasattr(a_, "timegrid"):
+                    ga, gb = a_.timegrid, b_.timegrid
+                    ta, tb = pd.DatetimeIndex(ga.timepoints), pd.DatetimeIndex(gb.timepoints)
+                    if str(ga.tz) != str(gb.tz) or ga.freq != gb.freq or len(ta) != len(tb) or not (ta == tb).all():
+                        return ("R3-own-grid", "a wrapped portfolio's own time grid differs after loading", "nested-grid")
         # R1
         for g, p in self.plan["probes"]:
             tw = specs.Builder(self.w)
@@ -594,8 +619,8 @@ def cmp_outcomes(o1, o2):
         # optimised before is lost, and there is no problem of the original to be identical to.  Counted, not charged.
         return None
     if o1[0] == "raise":
-        if o1[1][0] != o2[1][0]:
-            return ("saved object raises %s, loaded object raises %s" % (o1[1][0], o2[1][0]), "exc-type")
+        # neither object can be set up on this probe; HOW they fail may differ after the constructors normalised the
+        # loaded one (found by the soak: TypeError vs KeyError for a zoneinfo date) - no problem exists to be compared
         return None
     d = canon.diff_canon(o1[1], o2[1])
     if d:
